@@ -308,6 +308,20 @@ def playNote (w : World) (t : Rat) (e : Ev) : List Msg × World × Bool :=
       | Option.none => ([sNew], w', true)
     else ([sNew], w', false)
 
+/-- One event OBJECT played repeatedly from a routine: at `t`, then after each of the waits `dts`
+    (the same object or a copy of it — both carry the keys `play` stored, but every play takes a
+    new node id from the server). Stops when a play raises. Result: messages, world, time, raised. -/
+def playTimes (w : World) (e : Ev) : Rat → List Rat → List Msg × World × Rat × Bool
+  | t, [] =>
+    match playNote w t e with
+    | (m, w1, r) => (m, w1, t, r)
+  | t, d :: ds =>
+    match playNote w t e with
+    | (m, w1, true) => (m, w1, t, true)
+    | (m, w1, false) =>
+      let (ms, w', t', died) := playTimes w1 e (t + d) ds
+      (m ++ ms, w', t', died)
+
 /-! ### The event stream player -/
 
 /-- `EventStreamPlayer` from logical time `t` over the events its stream delivers: every event that
